@@ -827,7 +827,7 @@ func GenExif(rt *rapid.T, o Options) *ExifFile {
 			}
 			texts := []uint16{0x010e, 0x010f, 0x0110, 0x0131, 0x013b, 0x8298, 0xc62f}
 			if dd.d == exif {
-				texts = []uint16{0xa430, 0xa431, 0xa433, 0xa434, 0xa435}
+				texts = []uint16{0xa430, 0xa431, 0xa433, 0xa434, 0xa435, 0xa432} // (0xa432 LensSpecification: four rationals, here sixteen SHORTs)
 			}
 			for _, id := range texts {
 				have := false
@@ -838,6 +838,16 @@ func GenExif(rt *rapid.T, o Options) *ExifFile {
 					continue
 				}
 				var v Val
+				if id == 0xa432 {
+					if refs >= pendingLimit {
+						continue
+					}
+					refs++
+					dd.d.Entries = append(dd.d.Entries, Entry{Tag: id, V: Short(1, 2, 3, 4, 5, 6, 7, 8, 9, 10, 11, 12, 13, 14, 15, 16)})
+					usedBy[dd.d][id] = true
+					f.Classes = append(f.Classes, "mistyped-lens-specification")
+					continue
+				}
 				switch rapid.IntRange(0, 3).Draw(rt, "mistyped.kind") {
 				case 0:
 					v = Short(0x4142, 0x4344)
